@@ -51,8 +51,9 @@ def fb_list(arr):
         u = a.view(np.uint64)
         neg = (u >> np.uint64(63)).astype(bool)
         low = (u & np.uint64(0x7FFFFFFFFFFFFFFF)).tolist()
-    elif a.dtype == np.float32:
-        nan = np.isnan(a)
+    elif a.dtype == np.float32 or a.dtype == np.int32:
+        # (an int32 is written as sign bit + low 31 bits of its two's complement pattern: injective, like int64)
+        nan = np.isnan(a) if a.dtype == np.float32 else np.zeros(a.shape, bool)
         u = a.view(np.uint32)
         neg = (u >> np.uint32(31)).astype(bool)
         low = (u & np.uint32(0x7FFFFFFF)).tolist()
@@ -124,7 +125,10 @@ def dims_of(case):
 
 
 def np_dtype(name):
-    return {'float64': np.float64, 'float32': np.float32, 'int64': np.int64}[name]
+    return {'float64': np.float64, 'float32': np.float32, 'int64': np.int64, 'int32': np.int32}[name]
+
+
+INT_TOF = ('int64', 'int32')     # raw NeXus event_time_offset is stored as int32 or int64 ticks
 
 
 def build_parent(case, prog):
@@ -168,7 +172,7 @@ def build_parent(case, prog):
             tof_s[begin[kbin]:end[kbin]] = v
     tof_vals = tof_s * to_unit
     tdt = np_dtype(case['tof_dtype'])
-    if case['tof_dtype'] == 'int64':
+    if case['tof_dtype'] in INT_TOF:
         tof_vals = np.maximum(1, np.round(tof_vals))
     tof_var = sc.array(dims=['event'], values=tof_vals.astype(tdt), unit=unit, dtype=case['tof_dtype'])
     wdt = np_dtype(case['w_dtype'])
@@ -218,15 +222,16 @@ def build_parent(case, prog):
     coords['run_title'] = sc.scalar('run %d' % case['id'])
     if tof_axis is not None and case.get('edges'):
         e = edges_s * to_unit
-        if case['tof_dtype'] == 'int64' and case.get('edges_int'):
-            ev = sc.array(dims=['tof'], values=np.round(e).astype(np.int64), unit=unit, dtype='int64')
+        if case['tof_dtype'] in INT_TOF and case.get('edges_int'):
+            # integer bin edges have the event coordinate's integer dtype (what sc.bin / histogramming of raw ticks gives)
+            ev = sc.array(dims=['tof'], values=np.round(e).astype(tdt), unit=unit, dtype=case['tof_dtype'])
         else:
             ev = sc.array(dims=['tof'], values=e, unit=unit)
         if case['edges'] == '2d':
             # different edges for every spectrum, stored as a 2-d coordinate in the data's dim order
             scale = 1.0 + 0.01 * np.arange(sz['spectrum'])
             e2 = np.asarray(ev.values, dtype=np.float64)[None, :] * scale[:, None]      # (spectrum, tof+1)
-            if ev.dtype == sc.DType.int64:
+            if ev.dtype in (sc.DType.int64, sc.DType.int32):
                 e2 = np.round(e2)
             ev = sc.array(dims=['spectrum', 'tof'], values=e2.astype(np.asarray(ev.values).dtype), unit=unit,
                           dtype=ev.dtype)
@@ -307,6 +312,15 @@ def take(var, idx):
 
 
 # ---------------------------------------------------------------- one program
+def coord_types(da):
+    """(element dtype, unit) of every event coordinate ('event:<name>'), of the event data, and of every bin coordinate"""
+    buf = da.bins.constituents['data']
+    t = {'event:' + n: (str(buf.coords[n].dtype), str(buf.coords[n].unit)) for n in buf.coords}
+    t['event-data'] = (str(buf.dtype), str(buf.unit))
+    t.update({'coord:' + n: (str(da.coords[n].dtype), str(da.coords[n].unit)) for n in da.coords})
+    return t
+
+
 def layout_of(da, gdims_parent):
     c = da.bins.constituents
     nbuf = c['data'].sizes['event']
@@ -401,6 +415,7 @@ def run_program(case, prog, emit):
         da = inp['events'] if case.get('dataset') else inp
     snap = da.copy(deep=True)
     snap_event_names = (sorted(da.bins.coords), sorted(da.bins.masks), sorted(da.coords), sorted(da.masks))
+    snap_types = coord_types(da)
     lay = layout_of(da, info['gdims'])
     value_name = origin if target in GEO_ONLY else target
     # the one dim of the input that is not a pixel dim: the tof dim of the fresh object, whatever it is called now
@@ -410,6 +425,13 @@ def run_program(case, prog, emit):
     except Exception as ex:  # the conversion must work for every layout
         out['error'] = f'{type(ex).__name__}: {str(ex)[:300]}'
         out['layout'] = lay
+        # a call that raises must still leave its input alone
+        try:
+            if not sc.identical(da, snap, equal_nan=True) or not sc.identical(parent, parent_snap, equal_nan=True) \
+                    or coord_types(da) != snap_types:
+                out['error_input_modified'] = True
+        except Exception:
+            out['error_input_modified'] = True
         return out
     r = res['events'] if case.get('dataset') else res
     flags = list(out.pop('pre_flags', []))
@@ -419,6 +441,11 @@ def run_program(case, prog, emit):
         flags.append('input-coordinate-set-modified')
     if not sc.identical(da, snap, equal_nan=True) or not sc.identical(parent, parent_snap, equal_nan=True):
         flags.append('input-modified')
+    # the element dtype / unit of every event and bin coordinate of the input, by name (says WHAT was modified)
+    now_types = coord_types(da)
+    for name in sorted(snap_types):
+        if name in now_types and now_types[name] != snap_types[name]:
+            flags.append(f'input-{name}-dtype-unit-modified')
     # ---- dims: only the tof dim (under its current name) may be renamed
     ren = {}
     if len(r.dims) != len(da.dims):
